@@ -21,11 +21,23 @@ def total : GP → Bool
   | .or l r => total l && total r
   | _ => false
 
+def isPosInf : GVal → Bool
+  | .inf false => true
+  | _ => false
+
+def isNegInf : GVal → Bool
+  | .inf true => true
+  | _ => false
+
 /-- The parameter region in which `generate_true` is proved sound (C09).  Outside it:
 * `or l r` whose left operand can raise on the right operand's values (KF-gen-or-raises);
 * `dictOf` with more than one key/value pair (overlapping key predicates, KF-gen-dictof-overlap);
-* `isin` / `hasKey` with unhashable parameters (cannot be constructed in Python). -/
+* `isin` / `hasKey` with unhashable parameters (cannot be constructed in Python);
+* `gt_p(inf)` / `lt_p(-inf)`: no float satisfies them, the float arm yields the infinity itself
+  (an infinite *bound* is outside the property; the infinite *values* are inside). -/
 def okT : GP → Bool
+  | .gt v => !isPosInf v
+  | .lt v => !isNegInf v
   | .isin s => hashableL s
   | .hasKey k => hashable k
   | .and _ _ l r => okT l && okT r
@@ -40,18 +52,21 @@ def okT : GP → Bool
 
 /-- The parameter region in which `generate_false` is proved sound (C10).  Outside it:
 `and l r` whose left operand can raise on the values that falsify the right operand
-(KF-gen-and-raises). -/
+(KF-gen-and-raises); `ge_p(-inf)`, which no float falsifies (the float arm yields `-inf`). -/
 def okF : GP → Bool
+  | .ge v => !isNegInf v
   | .and _ _ l r => okF l && okF r && total l
   | .or l r => okF l && okF r
   | .all q | .setOf q => okF q
   | _ => true
 
 /-- Bound of a comparison that is served by `random_ints` / `random_floats` / a day list
-(not by rejection from `random_strings` / `random_uuids`). -/
+(not by rejection from `random_strings` / `random_uuids`); a float bound is finite (with an
+infinite bound given, `random_floats` may call `random.uniform` with an infinite end). -/
 def directBound : GVal → Bool
   | .str _ => false
   | .uuid _ => false
+  | .inf _ => false
   | _ => true
 
 /-- The `generate_true` requests with a uniform bound (no rejection loop). -/
